@@ -8,8 +8,10 @@ from pedal.core.submission import Submission
 from pedal.source.substitutions import Substitution
 from pedal.source.sections import FeedbackSourceSection
 from pedal.source.feedbacks import not_enough_sections
+from pedal.tifa.tifa_core import TifaCore
+from pedal.core.location import Location
 
-INSTANCE_CLASSES = [Report, Submission, Substitution, FeedbackSourceSection]
+INSTANCE_CLASSES = [Report, Submission, Substitution, FeedbackSourceSection, TifaCore, Location]
 PROPERTY_GET = {Submission: {'main_code': 'submission_main_code'}}
 
 
@@ -168,3 +170,45 @@ def stop_sections(report=None):
             and report.submission.main_file == old(top.filename))
     ensures("stack_shrinks", nitems(at(src, 'substitutions')) == old(nitems(at(src, 'substitutions'))) - 1)
     ensures("group_closed", at(src, 'section_group') is None)
+
+
+@target("pedal.source.sections:stop_any_sections")
+def stop_any_sections(report=None):
+    requires(instance_of(report, Report) and is_dict(report._tool_data) and has_key(report._tool_data, 'source')
+             and is_dict(source_data(report)) and has_key(source_data(report), 'substitutions')
+             and is_list(at(source_data(report), 'substitutions')))
+    requires(implies(nitems(at(source_data(report), 'substitutions')) > 0, wf_sectioned(report)))
+    let(src=source_data(report))
+    let(active=nitems(at(src, 'substitutions')) > 0)
+    let(top=item(at(src, 'substitutions'), nitems(at(src, 'substitutions')) - 1))
+    modifies(mapping(src), items(at(src, 'substitutions')), items(report.groups), mapping(report.submission.files),
+             report.submission.main_file)
+    raises_nothing()
+    ensures("original_text_restored_whenever_sections_are_active", implies(active,
+            report.submission.main_code == old(top.code) and report.submission.main_file == old(top.filename)
+            and nitems(at(src, 'substitutions')) == old(nitems(at(src, 'substitutions'))) - 1))
+
+
+@spec
+def wf_ast_node(node):
+    return is_obj(node) and is_int(node.lineno) and has_attr(node, 'col_offset')
+
+
+@assumed("pedal.core.location:Location.__init__", "plain data holder (dataclass-style constructor)")
+def Location__init__(self, line, col=None, end_line=None, end_col=None, filename=None):
+    modifies(attrs(self))
+    raises_nothing()
+    ensures(eqv(self.line, line) and eqv(self.col, col))
+
+
+@target("pedal.tifa.tifa_core:TifaCore.locate")
+def locate(self, node=None):
+    requires(instance_of(self, TifaCore) and is_int(self.line_offset) and is_list(self.node_chain))
+    requires(node is None or wf_ast_node(node))
+    requires(forall(lambda j: wf_ast_node(item(self.node_chain, j)), 0, nitems(self.node_chain)))
+    requires(implies(nitems(self.node_chain) == 0, wf_ast_node(self.final_node)))
+    let(where=node if node is not None else (item(self.node_chain, nitems(self.node_chain) - 1)
+                                             if nitems(self.node_chain) > 0 else self.final_node))
+    raises_nothing()
+    ensures("whole_file_line", exact_instance(result, Location) and fresh(result)
+            and result.line == where.lineno + self.line_offset)
